@@ -1339,6 +1339,48 @@ def check_c17_trash(prog, pdesc, rs, r, res, ledger, case, handles):
 
 # --------------------------------------------------------------------------------------------------
 
+def named_region(text, plate_name, rows, cols):
+    """The wells named by "<plate>[...]" in an instruction line, read back with the *reference* addressing model.
+    -> index list, or None when the line does not name a region of that plate (or in a form this reader does not know)."""
+    import re
+    m = re.search(re.escape(plate_name) + r"\[(.*?)\](?=['\s.,]|$)", text)
+    if not m:
+        return None
+    body = m.group(1).strip()
+
+    def atom(tok):
+        tok = tok.strip()
+        if tok == '':
+            return None
+        if tok[0] == tok[-1] == "'":
+            return tok[1:-1]
+        return int(tok)
+
+    def axis(part):
+        part = part.strip()
+        if part == ':':
+            return slice(None)
+        bits = [b_ for b_ in re.split(r":(?=(?:[^']*'[^']*')*[^']*$)", part)]
+        if len(bits) == 1:
+            return atom(bits[0])
+        if len(bits) == 2:
+            return slice(atom(bits[0]), atom(bits[1]))
+        return slice(atom(bits[0]), atom(bits[1]), atom(bits[2]))
+    try:
+        if body.startswith('['):
+            return None          # list selections: not read back here
+        parts = re.split(r",(?=(?:[^']*'[^']*')*[^']*$)", body)
+        if len(parts) == 1:
+            a_ = axis(parts[0])
+            sel = a_ if not (isinstance(a_, str) and ':' in a_) else a_
+        else:
+            sel = (axis(parts[0]), axis(parts[1]))
+        idx, _ = R.ref_address(rows, cols, sel)
+        return idx
+    except Exception:   # noqa
+        return None
+
+
 def check_c19_steps(prog, pdesc, rs, r, res, ledger, objects, case):
     from . import instr as I
     cf = R.cfg()
@@ -1358,6 +1400,29 @@ def check_c19_steps(prog, pdesc, rs, r, res, ledger, objects, case):
                 bad = 'names'
             elif not any(I.token_matches(t, {base: v}) for t in toks):
                 bad = 'amount'
+            else:
+                # "... to 'plate[region]'": the region the text names is the region the step addressed (it says how many
+                # wells got the amount, hence how much was moved in all)
+                import re as _re
+                mm_ = _re.search(r"from '(.*)' to '(.*)'\.?\s*$", text)
+                halves_ = (mm_.group(1), mm_.group(2)) if mm_ else (text, text)
+                for ref, half_ in zip((st['src'], st['dst']), halves_):
+                    if ref[1] is None or not is_plate(res[ref[0]]):
+                        continue
+                    pl_ = res[ref[0]]
+                    rows_, cols_ = list(pl_.row_names), list(pl_.column_names)
+                    want_ = ref[1].idx if isinstance(ref[1], SubSel) else R.ref_address(rows_, cols_, ref[1])[0]
+                    if isinstance(ref[1], list):
+                        continue
+                    got_ = named_region(half_, ref[0], rows_, cols_)
+                    M.count('INSTR.recipe_step_region')
+                    if got_ is None:
+                        M.count('INSTR.recipe_step_region_unreadable')
+                    elif sorted(set(got_)) != sorted(set(want_)):
+                        bad = 'region'
+                        M.bucket('C19/recipe/region/bad')
+                    else:
+                        M.bucket('C19/recipe/region/ok')
         elif op in ('dilute', 'fill_to'):
             t = st['dst'] if op == 'dilute' else st['dst'][0]
             solv = st['solvent']
